@@ -1,11 +1,308 @@
-/- Hand-written executable model (tie B): LatLon.  Core Lean only — no Mathlib import in this file. -/
+/- Hand-written executable model (tie B): LatLon.  Core Lean only — no Mathlib import in this file.
+
+   What is modelled (gstools/tools/geometric.py, covmodel/base.py, covmodel/tools.py, variogram/binning.py):
+   * `latlon2pos`, `pos2latlon` (with the optional appended time axis), `chordal_to_great_circle`,
+     `great_circle_to_chordal`;
+   * `CovModel.isometrize / anisometrize` of lat-lon (+ temporal) models and the constructor rules that
+     force `dim = 3 (+1)`, spatial isotropy and zero angles;
+   * the general-dimension `matrix_isometrize` (Givens product over `rotation_planes`) together with the
+     rule of `set_model_angles` that zeroes every angle of a plane touching the time axis;
+   * `CovModel.cov_yadrenko`-style composition, the lat-lon branch of `standard_bins`, the lag conversion of
+     `fit_variogram`, and the way the kriging matrix / right-hand side are assembled from isometrized positions.
+   The haversine kernel itself is NOT re-modelled here: `GSV.Estimator.dist_haversine` (generated from
+   estimator.pyx) is used directly. -/
 import GSV.Proto
+import GSV.Gen.Estimator
 open Lean GSV GSV.Proto GSV.Transc
 namespace GSV.Model.LatLon
+
+/-- `arcsin` is not part of `Transc`; local operation-only class (Float here, ℝ in `Lemmas/LatLon.lean`). -/
+class Asin (α : Type) where
+  asin : α → α
+export Asin (asin)
+
+instance : Asin Float := ⟨Float.asin⟩
+
+variable {α : Type} [Arith α] [Transc α] [Asin α] [DecidableLT α] [DecidableLE α]
+
+/-! ### scalar helpers -/
+
+/-- `np.deg2rad` : `x * (π / 180)` -/
+def deg2rad (x : α) : α := x * ((Transc.pi : α) / ((180:Nat):α))
+
+/-- `np.rad2deg` : `x * (180 / π)` -/
+def rad2deg (x : α) : α := x * (((180:Nat):α) / (Transc.pi : α))
+
+/-- `np.maximum(np.minimum(x, hi), lo)` -/
+def clip (lo hi x : α) : α :=
+  let m : α := if hi < x then hi else x
+  if m < lo then lo else m
+
+/-- a point of 3-space -/
+structure P3 (α : Type) where
+  x : α
+  y : α
+  z : α
+
+def P3.sub (p q : P3 α) : P3 α := ⟨p.x - q.x, p.y - q.y, p.z - q.z⟩
+def P3.normSq (p : P3 α) : α := p.x * p.x + p.y * p.y + p.z * p.z
+def P3.dot (p q : P3 α) : α := p.x * q.x + p.y * q.y + p.z * q.z
+def P3.toList (p : P3 α) : List α := [p.x, p.y, p.z]
+
+/-- Euclidean (chordal) distance of two points of 3-space -/
+def chord (p q : P3 α) : α := sqrt (P3.normSq (P3.sub p q))
+
+/-! ### `latlon2pos` / `pos2latlon` -/
+
+/-- `latlon2pos(latlon, radius)` for one point (degrees in) -/
+def latlon2pos (R lat lon : α) : P3 α :=
+  let la : α := deg2rad lat
+  let lo : α := deg2rad lon
+  ⟨R * cos la * cos lo, R * cos la * sin lo, R * sin la * ((1:Nat):α)⟩
+
+/-- `pos2latlon(pos, radius)` for one point (degrees out) -/
+def pos2latlon (R : α) (p : P3 α) : α × α :=
+  let lat : α := asin (clip (-((1:Nat):α)) ((1:Nat):α) (p.z / R))
+  let lon : α := atan2 p.y p.x
+  (rad2deg lat, rad2deg lon)
+
+/-- `latlon2pos(…, temporal=True, time_scale=ts)` : the time axis is appended and divided by `ts` -/
+def latlon2posT (R ts lat lon t : α) : P3 α × α := (latlon2pos R lat lon, t / ts)
+
+/-- `pos2latlon(…, temporal=True, time_scale=ts)` -/
+def pos2latlonT (R ts : α) (p : P3 α) (w : α) : α × α × α :=
+  let ll := pos2latlon R p
+  (ll.1, ll.2, w * ts)
+
+/-! ### chordal ↔ great-circle -/
+
+/-- `chordal_to_great_circle(dist, radius)` -/
+def chordal_to_great_circle (R d : α) : α :=
+  let diameter : α := ((2:Nat):α) * R
+  diameter * asin (clip ((0:Nat):α) ((1:Nat):α) (d / diameter))
+
+/-- `great_circle_to_chordal(dist, radius)` -/
+def great_circle_to_chordal (R d : α) : α :=
+  let diameter : α := ((2:Nat):α) * R
+  diameter * sin (d / diameter)
+
+/-- `CovModel.cov_yadrenko(zeta)` for a model with isotropic covariance `cov` and `geo_scale = R` -/
+def cov_yadrenko (cov : α → α) (R zeta : α) : α := cov (great_circle_to_chordal R zeta)
+
+/-- the haversine kernel of the estimator applied to two lat-lon points (radians out) -/
+def haversine (lat1 lon1 lat2 lon2 : α) : α :=
+  Estimator.dist_haversine 2 (fun d k => if d = 0 then (if k = 0 then lat1 else lat2) else (if k = 0 then lon1 else lon2)) 2 2 0 1
+
+/-- the argument `a` of the haversine formula, written with squares (used in the theorems) -/
+def havArg (lat1 lon1 lat2 lon2 : α) : α :=
+  let s1 : α := sin (deg2rad (lat2 - lat1) / ((2:Nat):α))
+  let s2 : α := sin (deg2rad (lon2 - lon1) / ((2:Nat):α))
+  s1 * s1 + cos (deg2rad lat1) * cos (deg2rad lat2) * (s2 * s2)
+
+/-! ### model state of a lat-lon (+ temporal) `CovModel` -/
+
+/-- `no_of_angles(dim)` -/
+def noa (d : Nat) : Nat := d * (d - 1) / 2
+
+/-- `set_dim`: lat-lon forces `3 (+1 if temporal)` -/
+def modelDim (latlon temporal : Bool) (dim : Nat) : Nat :=
+  if latlon then 3 + (if temporal then 1 else 0) else dim
+
+/-- `field_dim` -/
+def fieldDim (latlon temporal : Bool) (dim : Nat) : Nat :=
+  if latlon then 2 + (if temporal then 1 else 0) else dim
+
+/-- last clause of `set_len_anis`: "no spatial anisotropy for latlon" (`out_anis[:2] = 1.0`);
+    `anis` is the full list of `dim - 1` ratios -/
+def modelAnis (latlon : Bool) (anis : List α) : List α :=
+  if latlon then (anis.zipIdx).map (fun p => if p.2 < 2 then ((1:Nat):α) else p.1) else anis
+
+/-- `set_model_angles`: lat-lon → all zero; temporal → angles of planes touching the time axis zeroed;
+    `angles` is the full list of `no_of_angles(dim)` angles -/
+def modelAngles (latlon temporal : Bool) (dim : Nat) (angles : List α) : List α :=
+  if latlon then List.replicate (noa dim) ((0:Nat):α)
+  else if temporal then (angles.zipIdx).map (fun p => if p.2 < noa (dim - 1) then p.1 else ((0:Nat):α))
+  else angles
+
+/-- `anis[-1]` (time scale of a temporal model) -/
+def lastAnis (anis : List α) : α := anis.getLastD ((1:Nat):α)
+
+/-- `CovModel.isometrize` of a lat-lon model, one point `[lat, lon]` or `[lat, lon, t]` → list of 3 / 4 coordinates -/
+def isometrizeLL (R : α) (temporal : Bool) (anis : List α) (lat lon t : α) : List α :=
+  if temporal then
+    let r := latlon2posT R (lastAnis anis) lat lon t
+    r.1.toList ++ [r.2]
+  else (latlon2pos R lat lon).toList
+
+/-- `CovModel.anisometrize` of a lat-lon model -/
+def anisometrizeLL (R : α) (temporal : Bool) (anis : List α) (p : P3 α) (w : α) : List α :=
+  if temporal then
+    let r := pos2latlonT R (lastAnis anis) p w
+    [r.1, r.2.1, r.2.2]
+  else
+    let r := pos2latlon R p
+    [r.1, r.2]
+
+/-! ### general-dimension rotation / stretching matrices (`Nat → Nat → α`, entries outside `d × d` unused) -/
+
+abbrev Mat (α : Type) := Nat → Nat → α
+
+def eye : Mat α := fun i j => if i = j then ((1:Nat):α) else ((0:Nat):α)
+
+/-- `rotation_planes(dim)` = `[(i, j) for j in range(1, dim) for i in range(j)]` -/
+def planes (d : Nat) : List (Nat × Nat) :=
+  (List.range' 1 (d - 1)).flatMap fun j => (List.range j).map fun i => (i, j)
+
+/-- `givens_rotation(dim, plane, angle)` -/
+def givens (p : Nat × Nat) (θ : α) : Mat α := fun i j =>
+  if i = p.1 ∧ j = p.1 then cos θ
+  else if i = p.2 ∧ j = p.2 then cos θ
+  else if i = p.1 ∧ j = p.2 then -(sin θ)
+  else if i = p.2 ∧ j = p.1 then sin θ
+  else eye i j
+
+/-- `np.matmul` of `d × d` matrices -/
+def matmul (d : Nat) (A B : Mat α) : Mat α := fun i j =>
+  forRange 0 d ((0:Nat):α) fun k acc => acc + A i k * B k j
+
+/-- `(-1) ** i` -/
+def altSign (i : Nat) : α := if i % 2 = 0 then ((1:Nat):α) else -((1:Nat):α)
+
+/-- `matrix_derotate(dim, angles)`: `result = result · G(plane_i, (-1)^i · (-angle_i))`, left to right -/
+def derotate (d : Nat) (angles : List α) : Mat α :=
+  (((angles.zip (planes d)).zipIdx).foldl
+    (fun (res : Mat α) (q : (α × (Nat × Nat)) × Nat) => matmul d res (givens q.1.2 (altSign q.2 * (-q.1.1)))) eye)
+
+/-- `matrix_isotropify(dim, anis)` = `diag(1, 1/anis…)` -/
+def isotropify (anis : List α) : Mat α := fun i j =>
+  if i = j then (if i = 0 then ((1:Nat):α) else ((1:Nat):α) / anis.getD (i - 1) ((1:Nat):α)) else ((0:Nat):α)
+
+/-- `matrix_isometrize(dim, angles, anis)` -/
+def matIsometrize (d : Nat) (angles anis : List α) : Mat α :=
+  matmul d (isotropify anis) (derotate d angles)
+
+/-- `np.dot(M, pos)` for one point -/
+def applyMat (d : Nat) (M : Mat α) (x : Nat → α) : Nat → α := fun i =>
+  forRange 0 d ((0:Nat):α) fun k acc => acc + M i k * x k
+
+/-- `CovModel.isometrize` of a metric (non lat-lon) model whose parameters went through the constructor rules -/
+def isometrizeMetric (temporal : Bool) (d : Nat) (angles anis : List α) (x : Nat → α) : Nat → α :=
+  applyMat d (matIsometrize d (modelAngles false temporal d angles) anis) x
+
+/-! ### kriging assembly on isometrized positions (covariance block only) -/
+
+/-- entry `(i, j)` of the covariance block of the kriging matrix for lat-lon conditioning points:
+    `model.covariance(cdist(krige_pos, krige_pos))` with `krige_pos = isometrize(cond_pos)` -/
+def krigeEntry (cov : α → α) (R : α) (lat lon : Nat → α) (i j : Nat) : α :=
+  cov (chord (latlon2pos R (lat i) (lon i)) (latlon2pos R (lat j) (lon j)))
+
+/-- entry of the right-hand side for a target point -/
+def krigeRhs (cov : α → α) (R : α) (lat lon : Nat → α) (tlat tlon : α) (i : Nat) : α :=
+  cov (chord (latlon2pos R (lat i) (lon i)) (latlon2pos R tlat tlon))
+
+/-- `_pre_fitting`: lags of a lat-lon model are converted from great-circle to chordal before the curve fit -/
+def fitLag (latlon : Bool) (R x : α) : α := if latlon then great_circle_to_chordal R x else x
+
+/-! ### lat-lon branch of `standard_bins` -/
+
+/-- `int(np.ceil(2 * np.log2(n) + 1))` for `n ≥ 1`, in integer arithmetic:
+    the least `k` with `2^(k-1) ≥ n²` -/
+def sturges (n : Nat) : Nat :=
+  let m := n * n
+  let l := Nat.log2 m
+  1 + (if 2 ^ l = m then l else l + 1)
+
+def minList (l : List α) (d : α) : α := l.foldl (fun a b => if b < a then b else a) d
+def maxList (l : List α) (d : α) : α := l.foldl (fun a b => if a < b then b else a) d
+
+/-- diameter of the bounding box of the 3-D points, converted to a great-circle distance, divided by 3 -/
+def stdMaxDist (R : α) (lats lons : List α) : α :=
+  let ps : List (P3 α) := (lats.zip lons).map fun q => latlon2pos R q.1 q.2
+  let ext (f : P3 α → α) : α :=
+    let xs := ps.map f
+    let x0 := xs.headD ((0:Nat):α)
+    minList xs x0 - maxList xs x0
+  let dx := ext P3.x
+  let dy := ext P3.y
+  let dz := ext P3.z
+  let diam : α := sqrt (dx * dx + dy * dy + dz * dz)
+  chordal_to_great_circle R diam / ((3:Nat):α)
+
+/-- `np.linspace(0, max_dist, num = n + 1)` : `i * (max_dist / n)`, last entry exactly `max_dist` -/
+def linspace0 (maxd : α) (n : Nat) : List α :=
+  (List.range (n + 1)).map fun i => if i = n then maxd else ((i:Nat):α) * (maxd / ((n:Nat):α))
+
+/-! ### driver operations -/
+
+private def getF (j : Json) (k : String) : Except String Float := getFloat j k
 
 /-- line-protocol operations of this model; `none` = not one of mine -/
 def ops (op : String) (j : Json) : Option (Except String Json) :=
   match op with
+  | "ll_latlon2pos" => some (do
+      let R ← getF j "R"; let lat ← getFloats j "lat"; let lon ← getFloats j "lon"
+      let ps := (lat.toList.zip lon.toList).map fun q => (latlon2pos R q.1 q.2).toList
+      return fl2 ps)
+  | "ll_pos2latlon" => some (do
+      let R ← getF j "R"; let x ← getFloats j "x"; let y ← getFloats j "y"; let z ← getFloats j "z"
+      let ps := (x.toList.zip (y.toList.zip z.toList)).map fun q =>
+        let r := pos2latlon R ⟨q.1, q.2.1, q.2.2⟩
+        [r.1, r.2]
+      return fl2 ps)
+  | "ll_c2g" => some (do
+      let R ← getF j "R"; let d ← getFloats j "d"
+      return fl (d.toList.map (chordal_to_great_circle R)))
+  | "ll_g2c" => some (do
+      let R ← getF j "R"; let d ← getFloats j "d"
+      return fl (d.toList.map (great_circle_to_chordal R)))
+  | "ll_haversine" => some (do
+      let a ← getFloats j "lat1"; let b ← getFloats j "lon1"; let c ← getFloats j "lat2"; let d ← getFloats j "lon2"
+      let n := a.size
+      return fl ((List.range n).map fun i => haversine a[i]! b[i]! c[i]! d[i]!))
+  | "ll_havarg" => some (do
+      let a ← getFloats j "lat1"; let b ← getFloats j "lon1"; let c ← getFloats j "lat2"; let d ← getFloats j "lon2"
+      let n := a.size
+      return fl ((List.range n).map fun i => havArg a[i]! b[i]! c[i]! d[i]!))
+  | "ll_chord" => some (do
+      let R ← getF j "R"
+      let a ← getFloats j "lat1"; let b ← getFloats j "lon1"; let c ← getFloats j "lat2"; let d ← getFloats j "lon2"
+      let n := a.size
+      return fl ((List.range n).map fun i => chord (latlon2pos R a[i]! b[i]!) (latlon2pos R c[i]! d[i]!)))
+  | "ll_model" => some (do
+      -- constructor rules: dim, field_dim, anis, angles
+      let latlon ← getBool j "latlon"; let temporal ← getBool j "temporal"; let dim ← getNat j "dim"
+      let anis ← getFloats j "anis"; let angles ← getFloats j "angles"
+      let d := modelDim latlon temporal dim
+      return Json.arr #[Json.num (JsonNumber.fromNat d), Json.num (JsonNumber.fromNat (fieldDim latlon temporal dim)),
+        fl (modelAnis latlon anis.toList), fl (modelAngles latlon temporal d angles.toList)])
+  | "ll_isometrize" => some (do
+      let R ← getF j "R"; let temporal ← getBool j "temporal"; let anis ← getFloats j "anis"
+      let lat ← getFloats j "lat"; let lon ← getFloats j "lon"; let t ← getFloats j "t"
+      let n := lat.size
+      return fl2 ((List.range n).map fun i => isometrizeLL R temporal anis.toList lat[i]! lon[i]! (t.getD i 0.0)))
+  | "ll_anisometrize" => some (do
+      let R ← getF j "R"; let temporal ← getBool j "temporal"; let anis ← getFloats j "anis"
+      let x ← getFloats j "x"; let y ← getFloats j "y"; let z ← getFloats j "z"; let w ← getFloats j "w"
+      let n := x.size
+      return fl2 ((List.range n).map fun i => anisometrizeLL R temporal anis.toList ⟨x[i]!, y[i]!, z[i]!⟩ (w.getD i 0.0)))
+  | "ll_iso_metric" => some (do
+      let temporal ← getBool j "temporal"; let d ← getNat j "dim"
+      let anis ← getFloats j "anis"; let angles ← getFloats j "angles"; let x ← getFloats j "x"
+      let n := x.size / d
+      -- x is point-major: point p has coordinates x[p*d .. p*d+d)
+      return fl2 ((List.range n).map fun p =>
+        tab (isometrizeMetric temporal d angles.toList anis.toList (fun k => x[p * d + k]!)) d))
+  | "ll_iso_matrix" => some (do
+      let temporal ← getBool j "temporal"; let d ← getNat j "dim"
+      let anis ← getFloats j "anis"; let angles ← getFloats j "angles"
+      return fl2 (tab2 (matIsometrize d (modelAngles false temporal d angles.toList) anis.toList) d d))
+  | "ll_std_bins" => some (do
+      let R ← getF j "R"; let lat ← getFloats j "lat"; let lon ← getFloats j "lon"
+      let n := sturges lat.size
+      return Json.arr #[Json.num (JsonNumber.fromNat n), fl (linspace0 (stdMaxDist R lat.toList lon.toList) n)])
+  | "ll_fitlag" => some (do
+      let R ← getF j "R"; let latlon ← getBool j "latlon"; let x ← getFloats j "x"
+      return fl (x.toList.map (fitLag latlon R)))
   | _ => none
 
 end GSV.Model.LatLon
